@@ -25,6 +25,7 @@
 #include <fcntl.h>
 #include <unistd.h>
 #include <dirent.h>
+#include <ctype.h>
 #include <ftw.h>
 #include <limits.h>
 #include <semaphore.h>
@@ -123,6 +124,15 @@ static void make_tree(const char* root) {
   mkdir("d1", 0755); wfile("d1/x", "xx", 1, 0644); wfile("d1/y", "yyy", 1, 0644); mkdir("d1/sub", 0700);
   mkdir("d2", 0755);
   if (symlink("a.txt", "ln") || symlink("nope", "dang") || symlink("d1", "lnd")) exit(2);
+  /* awkward entry names: dots only, leading/trailing dots, blanks, newline, UTF-8, 0xFF,
+   * 255 bytes, case twins, leading dash - as files, directories and symlinks */
+  mkdir("odd", 0755);
+  wfile("odd/...", "3", 1, 0644); mkdir("odd/....", 0755); if (symlink("../a.txt", "odd/.....")) exit(2);
+  wfile("odd/..a", "", 0, 0644); mkdir("odd/.a", 0755); wfile("odd/a.", "", 0, 0644);
+  wfile("odd/ ", "", 0, 0644); mkdir("odd/a b", 0755); wfile("odd/new\nline", "", 0, 0644);
+  wfile("odd/\xc3\xa9t\xc3\xa9", "", 0, 0644); if (symlink("x", "odd/\xff\xfe")) exit(2);
+  wfile("odd/Case", "", 0, 0644); wfile("odd/case", "", 0, 0644); mkdir("odd/-rf", 0755); wfile("odd/--", "", 0, 0644);
+  { char nm[300]; int i; strcpy(nm, "odd/"); for (i = 0; i < 255; i++) nm[4 + i] = (char) ('a' + i % 26); nm[259] = 0; wfile(nm, "", 0, 0644); }
   (void) p;
 }
 static int rm_cb(const char* p, const struct stat* s, int f, struct FTW* w) { (void) s; (void) f; (void) w; return remove(p); }
@@ -386,14 +396,23 @@ static void blk_done(uv_work_t* w, int s) { (void) w; (void) s; }
  *   @t<n>        symlink target of n characters ('/' every 200)
  *   @n<n>        a name of n characters
  *   @p<n>:<leaf> a path of exactly n characters that resolves to <leaf> ("./" and "/" padding)
- *   @d<k>x<n>    k nested names of n characters joined by '/'                          ---- */
+ *   @d<k>x<n>    k nested names of n characters joined by '/'
+ *   @x<hex>      raw bytes                                                              ---- */
 static char* expand(const char* a) {
   size_t cap = 8 * PATH_MAX, n = 0; char* o = malloc(cap + 1); const char* p = a; long i;
   while (*p && n < cap - PATH_MAX) {
     if (*p == '+') { p++; continue; }
     if (*p != '@') { o[n++] = *p++; continue; }
     {
-      char k = p[1]; char* e; long v = strtol(p + 2, &e, 10); p = e;
+      char k = p[1]; char* e; long v;
+      if (k == 'x') {                     /* @x<hex>: raw bytes */
+        p += 2;
+        while (isxdigit((unsigned char) p[0]) && isxdigit((unsigned char) p[1])) {
+          unsigned bv; sscanf(p, "%2x", &bv); o[n++] = (char) bv; p += 2;
+        }
+        continue;
+      }
+      v = strtol(p + 2, &e, 10); p = e;
       if (v < 0) v = 0; if ((size_t) v > cap - n - PATH_MAX) v = (long) (cap - n - PATH_MAX);
       if (k == 't') { for (i = 0; i < v; i++) o[n++] = (i % 200 == 199 && i != v - 1) ? '/' : (char) ('a' + i % 26); }
       else if (k == 'n') { for (i = 0; i < v; i++) o[n++] = (char) ('a' + i % 26); }
@@ -414,12 +433,19 @@ static char* expand(const char* a) {
   o[n] = 0;
   return o;
 }
-/* strings are printed in full up to 200 characters, longer ones as <length>:<hash> */
+/* strings are printed with every byte outside [A-Za-z0-9._/-] as %XX, those longer than 200
+ * bytes as <length:hash> */
 static const char* shown(const char* str) {
-  static char b[4][256]; static int k; size_t l = strlen(str);
-  if (l <= 200) return str;
-  k = (k + 1) & 3; snprintf(b[k], sizeof b[k], "<%zu:%u>", l, fnv((const unsigned char*) str, l, 2166136261u));
-  return b[k];
+  static char b[8][1024]; static int k; size_t l = strlen(str), i, n = 0; char* o;
+  k = (k + 1) & 7; o = b[k];
+  if (l > 200) { snprintf(o, sizeof b[k], "<%zu:%u>", l, fnv((const unsigned char*) str, l, 2166136261u)); return o; }
+  for (i = 0; i < l; i++) {
+    unsigned char c = (unsigned char) str[i];
+    if ((c >= 'a' && c <= 'z') || (c >= 'A' && c <= 'Z') || (c >= '0' && c <= '9') || c == '.' || c == '_' || c == '/' || c == '-') o[n++] = (char) c;
+    else n += (size_t) sprintf(o + n, "%%%02X", c);
+  }
+  o[n] = 0;
+  return o;
 }
 ssize_t __real_readlink(const char*, char*, size_t);
 static volatile long readlink_bufsiz = -1; static volatile int readlink_armed;
@@ -609,15 +635,15 @@ static void run_op(char** a, int na) {
     if (uvr) {
       uv_dirent_t e; int n = 0;
       BEGIN(); rc = uv_fs_scandir(L, &req, ARG(1), 0, CB); res = complete(&req, rc); t("res=%ld out=", res);
-      if (res >= 0) { int lim = atoi(ARG(2)); while ((lim == 0 || n < lim) && uv_fs_scandir_next(&req, &e) == 0) { t("%s:%d,", e.name, (int) e.type); n++; } }
+      if (res >= 0) { int lim = atoi(ARG(2)); while ((lim == 0 || n < lim) && uv_fs_scandir_next(&req, &e) == 0) { t("%s:%d,", shown(e.name), (int) e.type); n++; } }
       END(0);
     } else {
-      struct dirent** d = NULL; int n = scandir(ARG(1), &d, NULL, alphasort), i, lim = atoi(ARG(2)), shown = 0;
+      struct dirent** d = NULL; int n = scandir(ARG(1), &d, NULL, alphasort), i, lim = atoi(ARG(2)), nshown = 0;
       res = n < 0 ? -(long) errno : 0;
       if (n >= 0) { for (i = 0; i < n; i++) if (strcmp(d[i]->d_name, ".") && strcmp(d[i]->d_name, "..")) res++; }
       t("res=%ld out=", res);
       for (i = 0; i < n; i++) {
-        if (strcmp(d[i]->d_name, ".") && strcmp(d[i]->d_name, "..") && (lim == 0 || shown < lim)) { t("%s:%d,", d[i]->d_name, dtype_uv(d[i]->d_type)); shown++; }
+        if (strcmp(d[i]->d_name, ".") && strcmp(d[i]->d_name, "..") && (lim == 0 || nshown < lim)) { t("%s:%d,", shown(d[i]->d_name), dtype_uv(d[i]->d_type)); nshown++; }
         free(d[i]);
       }
       free(d);
@@ -633,7 +659,7 @@ static void run_op(char** a, int na) {
         dir->dirents = ents; dir->nentries = (size_t) want;
         memset(&req, 0, sizeof req);
         BEGIN(); rc = uv_fs_readdir(L, &req, dir, CB); r2 = complete(&req, rc);
-        for (i = 0; i < r2 && i < 64; i++) { char b[300]; snprintf(b, sizeof b, "%s:%d", ents[i].name, (int) ents[i].type); names[n++] = strdup(b); }
+        for (i = 0; i < r2 && i < 64; i++) { char b[1100]; snprintf(b, sizeof b, "%s:%d", shown(ents[i].name), (int) ents[i].type); names[n++] = strdup(b); }
         t(" res=%ld", r2); END(0);
         t(" /");
         memset(&req, 0, sizeof req);
@@ -644,10 +670,10 @@ static void run_op(char** a, int na) {
       r1 = d ? 0 : -(long) errno; t("res=%ld", r1);
       if (d) {
         while (n < want) {
-          char b[300];
+          char b[1100];
           errno = 0; e = readdir(d); if (!e) break;
           if (!strcmp(e->d_name, ".") || !strcmp(e->d_name, "..")) continue;
-          snprintf(b, sizeof b, "%s:%d", e->d_name, dtype_uv(e->d_type)); names[n++] = strdup(b);
+          snprintf(b, sizeof b, "%s:%d", shown(e->d_name), dtype_uv(e->d_type)); names[n++] = strdup(b);
         }
         r2 = n; t(" / res=%ld", r2);
         r3 = NEG(closedir(d)); t(" / res=%ld", r3);
